@@ -1,5 +1,6 @@
 import PydraModel.DriverUtil
 import PydraModel.Sched.Model
+import PydraModel.Sched.Rerun
 /-
 JSON-lines driver of the `Sched` model.
 
@@ -10,6 +11,14 @@ JSON-lines driver of the `Sched` model.
       "status": "cont" | "done" | "bad", "outcome": .., "named": [..], "truth": [[ck, "ok"], ..], "maxlocked": n,
       "futured": [..]}
   {"op": "sync", ..., "fail": [ck, ..]} -> {"outcome": .., "ran": [..], "tables": {..}}
+
+Submissions over pre-existing results (`Sched/Rerun.lean`).  Jobs are named [node, index]; the checksum of a job is
+computed from the node, the index and the VALUES the node read when it started (value = 2*checksum + generation):
+  {"op": "rerun", "mode": "async" | "sync", "nodes", "edges", "sizes": [jobs per node], "k", "rerun": bool, "ro": bool,
+   "pre_fail": [[n,i]..],          -- first submission: synchronous loop, unlimited, these bodies raise
+   "fail": [[n,i]..], "schedule": [[["acq",n,i] | ["fin",n,i] | ["done",n,i], ...], ...]}
+  -> rounds as above with jobs as [n,i]; "began": [[n,i]..], "fresh": {node: [bool per job]},
+     "consistent": {node: bool}   -- the node's jobs are the ones its predecessors' FINAL values give
 -/
 open Lean PydraModel PydraModel.Graph PydraModel.Sched PydraModel.DriverUtil
 
@@ -144,11 +153,147 @@ def handleSync (j : Json) : Except String Json := do
       ("tables", tablesJ c.wf.g.nodes st.ns),
       ("outputs", Json.arr (c.wf.g.nodes.map (fun n => natsJ (outputs c.wf st n))).toArray)] ++ extra)
 
+/-! ### pre-existing results -/
+
+/-- self-delimiting code of a number: (bits, length in bits) -/
+def codeNat (x : Nat) : Nat × Nat :=
+  let l := x.log2 + 1
+  let ll := l.log2 + 1
+  -- unary(ll) 0 bin(l, ll bits) bin(x, l bits)
+  let pre := ((1 <<< ll) - 1) <<< 1
+  (((pre <<< ll) ||| l) <<< l ||| x, ll + 1 + ll + l)
+
+def catNats (l : List Nat) : Nat :=
+  (l.foldl (fun (acc : Nat × Nat) x => let c := codeNat x; ((acc.1 <<< c.2) ||| c.1, acc.2 + c.2)) (1, 1)).1
+
+/-- checksum of job `i` of node `n` started on the input values `ins`; node and index stay readable -/
+def jobCk (n i : Nat) (ins : List (List Val)) : Ck :=
+  catNats (ins.map (fun l => catNats l)) * 4096 + n * 64 + i
+
+def jobOfCk (c : Ck) : Nat × Nat := ((c % 4096) / 64, c % 64)
+
+structure RCase where
+  wf1 : Wf
+  wf2 : Wf
+  k : Option Nat
+  cfg0 : RCfg
+  ro : Bool
+  fail1 : Ck → Bool
+  fail2 : Ck → Bool
+
+def pairList (j : Json) : Except String (List (Nat × Nat)) := do
+  (← j.getArr?).toList.mapM (fun x => do
+    let a ← x.getArr?
+    if a.size != 2 then throw "pair" else return ((← a[0]!.getNat?), (← a[1]!.getNat?)))
+
+def parseRCase (j : Json) : Except String RCase := do
+  let nodes ← natList (← j.getObjVal? "nodes")
+  let edges ← edgeList (← j.getObjVal? "edges")
+  let sizes ← natList (← j.getObjVal? "sizes")
+  if sizes.length != nodes.length then throw "sizes/nodes length" else
+  let tbl := nodes.zip sizes
+  let k ← match j.getObjVal? "k" with
+    | .ok Json.null => pure none
+    | .ok v => do pure (some (← v.getNat?))
+    | .error _ => throw "k missing"
+  let rerun := match j.getObjVal? "rerun" with | .ok (Json.bool b) => b | _ => false
+  let ro := match j.getObjVal? "ro" with | .ok (Json.bool b) => b | _ => false
+  let f1 ← pairList (← j.getObjVal? "pre_fail")
+  let f2 ← pairList (← j.getObjVal? "fail")
+  let g : G := ⟨nodes, edges, [], none⟩
+  let mk : NodeId → List (List Val) → List Ck := fun n ins =>
+    (List.range ((tbl.lookup n).getD 0)).map (fun i => jobCk n i ins)
+  return ⟨⟨g, mk, fun c => 2 * c⟩, ⟨g, mk, fun c => 2 * c + 1⟩, k, ⟨rerun, fun _ => .idle, fun c => 2 * c⟩, ro,
+    fun c => f1.contains (jobOfCk c), fun c => f2.contains (jobOfCk c)⟩
+
+def findJob (nodes : List Nat) (ns : NSMap) (c : Ck) : Json :=
+  match nodes.find? (fun n => (ns.get n).cks.contains c) with
+  | some n => natsJ [n, (ns.get n).cks.idxOf c]
+  | none => natsJ [(jobOfCk c).1, (jobOfCk c).2]
+
+def evOfJsonR (st : St) (j : Json) : Except String Ev := do
+  let a ← j.getArr?
+  if a.size != 3 then throw "move" else
+  let c := ckOf st ((← a[1]!.getNat?), (← a[2]!.getNat?))
+  match (← a[0]!.getStr?) with
+  | "acq" => return .acquire c
+  | "ok" => return .finishOk c
+  | "err" => return .finishErr c
+  | "done" => return .complete c
+  | s => throw s!"bad-move {s}"
+
+def applyTrackR (cfg : RCfg) : RSt → List Json → Nat → Except String (Option (RSt × Nat))
+  | r, [], m => return some (r, m)
+  | r, e :: es, m => do
+    let ev ← evOfJsonR r.st e
+    match applyEvR cfg r ev with
+    | some r' => applyTrackR cfg r' es (max m (executing r').length)
+    | none => return none
+
+def snapshotR (nodes : List Nat) (prevFutured : List Ck) (st : St) : Json := Json.mkObj [
+  ("tasks", jobsJ st.tasks), ("pending", Json.arr (st.futures.map (findJob nodes st.ns)).toArray),
+  ("dispatched", Json.arr ((st.futured.drop prevFutured.length).map (findJob nodes st.ns)).toArray),
+  ("tables", tablesJ nodes st.ns)]
+
+partial def playR (c : RCase) (cfg : RCfg) (sorted : List NodeId) : List (List Json) → RStep → List Ck → Array Json → Nat →
+    Except String (Array Json × Nat × String × Option Outcome × Option RSt)
+  | _, .bad, _, acc, mx => return (acc, mx, "bad", none, none)
+  | _, .done o r, _, acc, mx => return (acc, mx, "done", some o, some r)
+  | [], .cont r, prev, acc, mx => return (acc.push (snapshotR c.wf2.g.nodes prev r.st), mx, "cont", none, some r)
+  | mv :: rest, .cont r, prev, acc, mx => do
+    let acc := acc.push (snapshotR c.wf2.g.nodes prev r.st)
+    if r.st.futures.isEmpty && !mv.isEmpty then return (acc, mx, "bad", none, some r) else
+    match (← applyTrackR cfg r mv mx) with
+    | none => return (acc, mx, "bad", none, some r)
+    | some (r1, mx') =>
+      if !r.st.futures.isEmpty && r1.st.futures.length == r.st.futures.length then return (acc, mx', "bad", none, some r1) else
+      playR c cfg sorted rest (pollStepR c.wf2 c.k sorted cfg r1) r.st.futured acc mx'
+
+def finalJ (c : RCase) (cfg : RCfg) (r : RSt) : List (String × Json) :=
+  let nodes := c.wf2.g.nodes
+  let wfd := diskWf c.wf2 cfg r.ended
+  [("began", Json.arr (r.began.map (findJob nodes r.st.ns)).toArray),
+   ("final_tables", tablesJ nodes r.st.ns),
+   ("fresh", Json.mkObj (nodes.map (fun n => (toString n,
+      Json.arr ((r.st.ns.get n).cks.map (fun x => Json.bool (r.ended.contains x))).toArray)))),
+   ("consistent", Json.mkObj (nodes.map (fun n => (toString n,
+      Json.bool ((r.st.ns.get n).blk.isNone || (r.st.ns.get n).unrunnable ||
+        (r.st.ns.get n).cks == c.wf2.mkJobs n (inputsOf wfd r.st.ns n))))))]
+
+def handleRerun (j : Json) : Except String Json := do
+  let c ← parseRCase j
+  let mode ← getStr j "mode"
+  match sortFrom c.wf2.g [] with
+  | none => return Json.mkObj [("sorted", Json.null), ("status", "cycle")]
+  | some sorted =>
+    let fuel := 40 * (c.wf2.g.nodes.length + 10)
+    -- the first submission: synchronous loop, no limit
+    let (o1, st1) := runSync c.wf1 none sorted c.fail1 fuel
+    let w1 := st1.w
+    let cfg : RCfg := if c.ro then { c.cfg0 with ro := w1 } else c.cfg0
+    let w0 : World := if c.ro then fun _ => .idle else w1
+    let first : String := match o1 with | .success => "success" | .raised _ => "raised" | .outOfFuel => "outOfFuel"
+    if mode == "sync" then
+      let (o, r) := runSyncR c.wf2 c.k sorted cfg w0 c.fail2 fuel
+      let bad := c.wf2.g.nodes.filter (fun n => !(r.st.ns.get n).errored.isEmpty)
+      let (oc, extra) : String × List (String × Json) := match o with
+        | .success => if bad.isEmpty then ("success", []) else ("failedNodes", [("named", natsJ bad)])
+        | .raised x => ("raised", [("raised", findJob c.wf2.g.nodes r.st.ns x)])
+        | .outOfFuel => ("outOfFuel", [])
+      return Json.mkObj ([("sorted", natsJ sorted), ("first", Json.str first), ("outcome", Json.str oc)] ++ extra ++ finalJ c cfg r)
+    else
+      let sched ← (← getArr j "schedule").toList.mapM (fun r => do pure (← r.getArr?).toList)
+      let (rounds, mx, status, o, r) ← playR c cfg sorted sched (pollStepR c.wf2 c.k sorted cfg (RSt.init w0)) [] #[] 0
+      let fin := match r with | some r => finalJ c cfg r | none => []
+      return Json.mkObj ([("sorted", natsJ sorted), ("first", Json.str first), ("rounds", Json.arr rounds),
+        ("status", Json.str status), ("maxlocked", toJson mx)] ++ fin ++ (match o with | some o => outcomeJ o | none => []))
+
 def handle (j : Json) : Json :=
   let r : Except String Json := do
     match (← getStr j "op") with
     | "async" => handleAsync j
     | "sync" => handleSync j
+    | "rerun" => handleRerun j
     | op => throw s!"bad-op {op}"
   match r with
   | .ok v => v
